@@ -13,6 +13,7 @@ import time
 HERE = os.path.dirname(os.path.dirname(os.path.abspath(__file__)))
 SHARDS = {"quick": 8, "thorough": 16}
 WORKER_TIMEOUT = {"quick": 45 * 60, "thorough": 8 * 3600}
+FUZZ_CHUNK = 8000      # executions per fuzzing process (memory, see main())
 
 
 def _load_findings(prop_id):
@@ -149,7 +150,11 @@ def _run(prop_id, args, seed, tmp, t0):
   fuzz_runs = int(getattr(mod0, "FUZZ", {}).get(tier, 0) * args.scale)
   fuzz_names = []
   if fuzz_runs > 0:
-    fprocs = []
+    # TensorFlow / Keras retain memory per built model (~70 MB per 1000
+    # executions of C16), so a campaign is cut into waves of at most FUZZ_CHUNK
+    # executions per process; a shard's corpus directory carries over from one
+    # wave to the next, so coverage feedback accumulates across waves.
+    cdirs = []
     for i in range(nshards):
       cdir = os.path.join(tmp, "corpus%d" % i)
       os.makedirs(cdir)
@@ -157,14 +162,24 @@ def _run(prop_id, args, seed, tmp, t0):
       if os.path.isdir(committed) and i % 2 == 1:
         for fn in os.listdir(committed):      # odd shards start from the corpus
           shutil.copy(os.path.join(committed, fn), cdir)
-      p = _spawn(["--prop", prop_id, "--mode", "fuzz", "--tier", tier,
-                  "--runs", str(fuzz_runs), "--seed", str(seed * 1000 + i + 1),
-                  "--corpus", cdir],
-                 os.path.join(tmp, "fuzz%d.json" % i),
-                 os.path.join(tmp, "fuzz%d.log" % i))
-      fprocs.append(("fuzz%d" % i, p))
-      fuzz_names.append("fuzz%d" % i)
-    results += _wait_all(fprocs, WORKER_TIMEOUT[tier])
+      cdirs.append(cdir)
+    left, wave = fuzz_runs, 0
+    while left > 0:
+      runs = min(left, FUZZ_CHUNK)
+      fprocs = []
+      for i in range(nshards):
+        name = "fuzz%d_%d" % (i, wave)
+        p = _spawn(["--prop", prop_id, "--mode", "fuzz", "--tier", tier,
+                    "--runs", str(runs), "--seed",
+                    str(seed * 1000 + 100 * wave + i + 1),
+                    "--corpus", cdirs[i]],
+                   os.path.join(tmp, name + ".json"),
+                   os.path.join(tmp, name + ".log"))
+        fprocs.append((name, p))
+        fuzz_names.append(name)
+      results += _wait_all(fprocs, WORKER_TIMEOUT[tier])
+      left -= runs
+      wave += 1
   for name, rc in results:
     outp = os.path.join(tmp, name + ".json")
     if rc != 0 or not os.path.exists(outp):
@@ -186,7 +201,8 @@ def _run(prop_id, args, seed, tmp, t0):
         "decoded_cases": sum(r["fuzz"]["decoded_cases"] for r in fuzz_res),
         "coverage_feedback": "tensorflow_lattice modules only",
         "corpora": "even shards start empty, odd shards from corpus/<ID>/ "
-                   "when present"}
+                   "when present; waves of at most %d executions per "
+                   "process share the shard's corpus directory" % FUZZ_CHUNK}
     for r in fuzz_res:
       for v in r["violations"]:
         v["shard"] = "fuzz"
